@@ -233,3 +233,7 @@ impl AsFd for IoData {
 }
 
 unsafe impl Send for IoData {}
+
+#[cfg(kani)]
+#[path = "/verif/harness/may/io_sys_unix_mod.rs"]
+mod verif_kani;
